@@ -183,6 +183,10 @@ func planC16(c *Ctx, run int64) *Plan {
 	if setAddons {
 		mk(Op{K: "setaddons", S: strings.Join(addons, ",")})
 	}
+	if Chance(r, 0.25) {
+		// a source whose tax date is not its issue date
+		mk(Op{K: "valuedate", I: int64(3 + r.IntN(40))})
+	}
 	signed := stampMode == 3 || Chance(r, 0.4)
 	if signed {
 		mk(Op{K: "sign", I: int64(r.IntN(3))})
@@ -446,6 +450,24 @@ func execC16(x *X) {
 				}
 				def, _ = mergedCorrection(x.C.Repo, d.Regime, d.Addons)
 				x.Probe("source-with-replaced-addons")
+			}
+		case "valuedate":
+			b := Marshal(src)
+			v, err := ParseJV(b)
+			if err != nil || v.Get("doc").Get("issue_date").Str() == "" {
+				break
+			}
+			v.Get("doc").Set("value_date", JStr(dateAdd(v.Get("doc").Get("issue_date").Str(), -int(op.I))))
+			e2, err := ParseEnv(v.Encode(nil))
+			if err != nil {
+				break
+			}
+			if safely(func() { err = e2.Calculate() }) != "" || err != nil || e2.Validate() != nil {
+				break
+			}
+			if srcT, err := ParseJV(Marshal(e2)); err == nil && srcT.Get("doc").Get("code").Str() != "" {
+				src, srcTree = e2, srcT
+				x.Probe("source-with-value-date")
 			}
 		case "denorm":
 			// rewrite percentages "21.0%" as "21%" (same value, other precision) and recompute the
